@@ -31,7 +31,7 @@ package kvql
 //@   requires p != nil && p.ChildPlan != nil && !failed
 //@   assigns p.executed, pcur(p.ChildPlan), nops, failed, lastErr
 //@   ensures[C11] reset: !p.executed && (err == nil ==> pcur(p.ChildPlan) == 0 && plen(p.ChildPlan) >= 0)
-//@   ensures[C13] surfaced: failed ==> err == lastErr
+//@   ensures[C13] surfaced: (failed ==> err == lastErr) && (err == nil ==> !failed)
 //
 //@ func (p *DeletePlan) Next(ctx *ExecuteCtx) (row []Column, err error)
 //@   props C11 C13
@@ -90,4 +90,5 @@ package kvql
 //@   ensures[C11] scan: err == nil && is(plan, *DeletePlan) ==> as(plan, *DeletePlan).Storage == s && !as(plan, *DeletePlan).executed && as(plan, *DeletePlan).ChildPlan != nil
 //@   ensures[C11,C08] limited: err == nil && is(plan, *DeletePlan) && !is(as(plan, *DeletePlan).ChildPlan, *EmptyResultPlan) ==> ite(stmt.Limit != nil, is(as(plan, *DeletePlan).ChildPlan, *LimitPlan) && as(as(plan, *DeletePlan).ChildPlan, *LimitPlan).Start == stmt.Limit.Start && as(as(plan, *DeletePlan).ChildPlan, *LimitPlan).Count == stmt.Limit.Count && as(as(plan, *DeletePlan).ChildPlan, *LimitPlan).ChildPlan != nil && (holds(o.filter.Ast.Expr, k, v) ==> planCovers(as(as(plan, *DeletePlan).ChildPlan, *LimitPlan).ChildPlan, k)), holds(o.filter.Ast.Expr, k, v) ==> planCovers(as(plan, *DeletePlan).ChildPlan, k))
 //@   ensures[C11] empty: err == nil && is(plan, *DeletePlan) && is(as(plan, *DeletePlan).ChildPlan, *EmptyResultPlan) ==> !holds(o.filter.Ast.Expr, k, v)
-//@   ensures[C13] surfaced: failed ==> err == lastErr
+//@   ensures[C13] surfaced: (failed ==> err == lastErr) && (err == nil ==> !failed && plan != nil)
+//@   ensures[C13] readonly: nmut == old(nmut)
